@@ -160,6 +160,49 @@ def ob_inside_hold(upol, budget_s=120):
     return symx.explore(run, budget_s=budget_s)
 
 
+def ob_many_holds(k, upol, budget_s=200):
+    """hand-built grouped sequence with k holds open at once (columns 0..k-1, symbolic tail beats in any order) followed by a
+    plain note on another column: the ungrouped stream is position sorted and contains exactly heads, tails and the note"""
+    import z3
+    symx, mods = _setup()
+    G = mods["simfile.notes.group"]; N = mods["simfile.notes"]; T = mods["simfile.timing"]
+
+    def run():
+        hb = [z3.Real(f"h{i}") for i in range(k)]; tb = [z3.Real(f"t{i}") for i in range(k)]
+        nb = z3.Real("nb")
+        for i in range(k):
+            symx.CTL.assume(hb[i] >= 0, tb[i] > hb[i])
+            if i:
+                symx.CTL.assume(hb[i] >= hb[i - 1])
+        symx.CTL.assume(nb >= hb[k - 1])
+        grouped = [[G.NoteWithTail(beat=T.Beat(symx.FracShim(hb[i])), column=i, note_type=N.NoteType.HOLD_HEAD, tail_beat=T.Beat(symx.FracShim(tb[i])))] for i in range(k)]
+        grouped.append([N.Note(beat=T.Beat(symx.FracShim(nb)), column=k, note_type=N.NoteType.TAP)])
+        try:
+            back = list(G.ungroup_notes(grouped, orphaned_notes=G.OrphanedNotes[upol]))
+        except G.OrphanedNoteException:
+            return False, ("raised although the note is on a free column",)
+        if len(back) != 2 * k + 1:
+            return False, ("length", len(back))
+        conds = []
+        # position sorted
+        for a, b in zip(back, back[1:]):
+            ab, bb = symx.zr(symx.term_of(a.beat)), symx.zr(symx.term_of(b.beat))
+            conds.append(z3.Or(ab < bb, z3.And(ab == bb, z3.BoolVal(a.column < b.column))))
+        # exactly the expected notes
+        for i in range(k):
+            heads = [x for x in back if x.column == i and x.note_type is N.NoteType.HOLD_HEAD]
+            tails = [x for x in back if x.column == i and x.note_type is N.NoteType.TAIL]
+            if len(heads) != 1 or len(tails) != 1:
+                return False, ("column", i)
+            conds.append(symx.zr(symx.term_of(heads[0].beat)) == hb[i]); conds.append(symx.zr(symx.term_of(tails[0].beat)) == tb[i])
+        taps = [x for x in back if x.column == k]
+        if len(taps) != 1:
+            return False, ("tap",)
+        conds.append(symx.zr(symx.term_of(taps[0].beat)) == nb)
+        return z3.And(*conds), ("many_holds", k)
+    return symx.explore(run, budget_s=budget_s)
+
+
 def obligations(tier):
     obs = []
     n, b = (3, 200) if tier == "quick" else (4, 3000)
@@ -176,6 +219,9 @@ def obligations(tier):
                     obs.append(dict(name=f"roundtrip n={n} {same} join={join} head={oh} tail={ot} ungroup={up}", func="ob_roundtrip",
                                     args=(n, 2, same, join, oh, ot, up), budget_s=b,
                                     bounds=f"{n} notes, 2 columns, 5 kinds, symbolic beats with all tie patterns, head keysounds symbolic, tails without keysound"))
+    for k in ((3,) if tier == "quick" else (3, 4)):
+        obs.append(dict(name=f"many_holds k={k}", func="ob_many_holds", args=(k, "RAISE_EXCEPTION"), budget_s=b,
+                        bounds=f"{k} NoteWithTail on distinct columns with symbolic head/tail beats (every release order), then a tap on a free column"))
     for up in nc.POL:
         obs.append(dict(name=f"inside_hold ungroup={up}", func="ob_inside_hold", args=(up,), budget_s=b,
                         bounds="one NoteWithTail (symbolic head/tail beats, keysound) + one plain note (symbolic beat, 2 columns, 3 kinds), both row layouts"))
@@ -222,6 +268,15 @@ def replay(data):
         else:
             bad = back != exp
         return bad, f"ungroup(group({notes}, {kw}), {up}) = {back}; expected {exp}"
+    if data["func"] == "ob_many_holds":
+        k, up = a
+        grouped = [[G.NoteWithTail(beat=Beat(g(f"h{i}")), column=i, note_type=NoteType.HOLD_HEAD, tail_beat=Beat(g(f"t{i}")))] for i in range(k)]
+        tap = Note(beat=Beat(g("nb")), column=k, note_type=NoteType.TAP)
+        grouped.append([tap])
+        back = list(G.ungroup_notes(grouped, orphaned_notes=G.OrphanedNotes[up]))
+        exp = sorted([Note(x[0].beat, x[0].column, x[0].note_type) for x in grouped[:-1]] + [Note(x[0].tail_beat, x[0].column, NoteType.TAIL) for x in grouped[:-1]] + [tap],
+                     key=lambda n: (n.player, n.beat, n.column))
+        return back != exp, f"ungroup_notes({grouped}) = {back}; expected {exp}"
     up = a[0]
     hk = nc.HEADS[int(g("hk"))]; kind = ["TAP", "MINE", "HOLD_HEAD"][int(g("nk"))]
     hcol, ncol = int(g("hcol")), int(g("ncol"))
